@@ -11,33 +11,42 @@ CASE_TIMEOUT = 15.0
 RULE = ("Four generated sub-domains, precisions 30..300 bits. "
         "(1) findroot with verify=True for every solver name (secant, newton, mnewton, halley, muller, anewton, bisect, "
         "illinois, pegasus, anderson, ridder; mdnewton for systems): scalar f = polynomials with planted dyadic roots "
-        "(multiplicities 1..5, quadratic factors without real roots, factored or Horner form, exact constants), exp(ax)-c, "
-        "cos(x)-ax-b, x exp(x)-c, exp(-x^2)+c, 1/(1+x^2)-c, tanh(x)-c, sin(x)-c, constants (with and without real roots, "
-        "flat tails); starting points near / far / at a root, brackets with and without a sign change, reversed brackets; "
-        "options tol, maxsteps, df/d1f/d2f; 2-3 unknown polynomial systems (also overdetermined) with a planted solution, "
-        "norms inf/1/2, optional exact Jacobian. Oracle: a call either raises the documented ValueError/ZeroDivisionError "
-        "or returns x with |f(x)|^2 <= tol, tol = 2^(11-(p+20)) unless given, where f(x) is re-evaluated (a) at the working "
+        "(multiplicities 1..5, quadratic factors without real roots, linear functions, factored or Horner form, exact "
+        "constants), exp(ax)-c, cos(x)-ax-b, x exp(x)-c, exp(-x^2)+c, 1/(1+x^2)-c, tanh(x)-c, sin(x)-c, constants (with and "
+        "without real roots, flat tails; the transcendental ones raise OverflowError for |x| > 2^40 like a user function "
+        "with a bounded domain, such calls are rejected); starting points near / far / at a root, short dyadics and "
+        "generic 53-bit values, brackets with and without a sign change, reversed brackets; options tol, maxsteps, "
+        "df/d1f/d2f; 2-3 unknown polynomial systems (also overdetermined, also degenerate) with a planted solution, norms "
+        "inf/1/2, optional exact Jacobian. Oracle: a call either raises the documented ValueError/ZeroDivisionError or "
+        "returns x with |f(x)|^2 <= tol, tol = 2^(11-(p+20)) unless given, where f(x) is re-evaluated (a) at the working "
         "precision p+20 exactly as findroot does and (b) with the frozen reference mpmath at 3p+100 bits (exact rational "
         "arithmetic for systems) allowing the rounding error of one evaluation of f at p+20 bits; with a strict sign "
-        "change the bracketing solvers return a real point of [min(a,b), max(a,b)] (4 ulp slack) and bisection, whose "
-        "convergence is guaranteed, must not give up when maxsteps halvings provably suffice; mp.prec is unchanged "
-        "after every call, failing or not. "
-        "(2) mnewton on f = (x-r)^m g(x), m = 1..5, g(r) != 0 with the roots of g at distance >= 2, start within 0.1..0.3 "
-        "of r, numerical derivatives or user-supplied df / df+d2f / d1f+d2f / d2f alone, factored or expanded (polyval) "
-        "form: the call must return x with |x-r| <= 2^(4-p/m) max(1,|r|) (exact comparison) and not raise; cases where "
-        "the modified Newton iteration carried out with exact derivatives at (m+1)(p+30)+100 bits does not converge within 18 "
-        "steps are rejected. "
+        "change the bracketing solvers return a real point of [min(a,b), max(a,b)] (4 ulp slack); bisection, whose "
+        "convergence is guaranteed, must not give up when maxsteps halvings provably suffice, and illinois / pegasus / "
+        "anderson / ridder must not give up on a linear function (default tol, >= 30 steps); a TypeError of a bracketing "
+        "solver without sign change is outside its documented domain (rejected); mp.prec is unchanged after every call, "
+        "failing or not. "
+        "(2) mnewton on f = (x-r)^m g(x), m = 1..5, g(r) != 0 with the roots of g at distance >= 2 (one third pure powers), "
+        "start within 0.1..0.3 of r (10..100 significant bits), numerical derivatives or user-supplied df / df+d2f / "
+        "d1f+d2f / d2f alone, factored or expanded (polyval) form: the call must return x with |x-r| <= 2^(4-p/m) "
+        "max(1,|r|) (exact comparison) and not raise; cases where the modified Newton iteration carried out with exact "
+        "derivatives at (m+1)(p+30)+100 bits does not converge within 18 steps are rejected. "
         "(3) polyroots on degree 0..20 polynomials with planted roots (rational reals, Gaussian rationals, conjugate pairs "
         "for real coefficients, near-unit-circle configurations, multiplicity 2..3 at raised extraprec/maxsteps, pairs with "
         "equal or nearly equal |Im|, equal real parts, tiny imaginary parts), integer / exact mpf / float / complex "
-        "coefficients, options maxsteps, cleanup, extraprec, error, roots_init: exactly deg roots of type mpf/mpc; "
-        "|P(root)| (exact integer arithmetic) <= 8 err sum k|c_k||root|^(k-1) + (deg+4) 2^(1-p) sum |c_k||root|^k; every "
-        "simple planted root whose condition number allows it has a distinct computed root within 8 max(err, 2^(10-p) "
-        "max(1,|r|)); with real coefficients and cleanup=True the exactly real outputs come first in ascending order and "
-        "the remaining outputs (matched to the planted roots) form adjacent conjugate pairs; cleanup leaves no component "
-        "below 2^(1-p) and makes well-conditioned real roots real; polyval (with derivative) agrees with exact evaluation "
-        "within the Horner bound. NoConvergence is documented: inconclusive. "
-        "(4) multiplicity(f, r) for f = (x-r)^m g(x), m = 1..6, real and complex r, with and without supplied dkf: returns m. "
+        "coefficients, options maxsteps, cleanup, extraprec, error, roots_init: exactly deg roots of type mpf/mpc (and the "
+        "documented tuple with error=True); |P(root)| (exact integer arithmetic) <= 8 err sum k|c_k||root|^(k-1) + (deg+4) "
+        "2^(1-p) sum |c_k||root|^k; every simple planted root whose condition number allows it (S(r)/|P'(r)| 2^-extraprec "
+        "<= 64 max(1,|r|)) has a distinct computed root within 8 max(err, 2^(10-p) max(1,|r|)); with real coefficients "
+        "and cleanup=True the exactly real outputs come first in ascending order and the remaining outputs (matched to "
+        "the planted roots when every output lies within a third of the root separation of exactly one planted root) form "
+        "adjacent conjugate pairs; cleanup leaves no component below 2^(1-p) and makes well-conditioned real roots real; "
+        "polyval (with derivative) agrees with exact evaluation within the Horner bound. NoConvergence is documented: "
+        "inconclusive. The docstring's further remark that complex roots are sorted by real part is not part of the "
+        "statement and is not checked (the sort key is (|Im|, Re)). "
+        "(4) multiplicity(f, r) for f = 2^-s (x-r)^m g(x), m = 1..6, s <= 0.6p, real and complex r, with and without supplied "
+        "dkf (Leibniz form for the factored f, Horner form otherwise; Horner evaluations whose rounding noise at the root "
+        "reaches the threshold eps^0.8 are rejected): returns m. "
         "Non-trivial = multiplicity >= 2, or degree >= 4, or a start that does not converge, or a system.")
 ASSUMPTIONS = ["the frozen reference mpmath 1.3.0 evaluates exp, cos, sin, tanh and polynomials to within 2^-(3p+90) at 3p+100 bits",
                "one evaluation of the generated f at p+20 bits is accurate to the stated multiple of 2^-(p+20) times the sum of "
@@ -236,8 +245,12 @@ def _dy(d, lo, hi, bits):
 
 
 def _gen_fspec(d):
-    fam = d.weighted([(10, "poly"), (2, "expc"), (2, "cosx"), (2, "xexp"), (1, "gauss"), (1, "const"), (1, "rat"),
+    fam = d.weighted([(10, "poly"), (2, "linear"), (2, "expc"), (2, "cosx"), (2, "xexp"), (1, "gauss"), (1, "const"), (1, "rat"),
                       (1, "tanh"), (1, "sin")])
+    if fam == "linear":
+        sc = d.weighted([(4, Fr(1)), (2, Fr(-1)), (2, Fr(2)), (1, Fr(1, 4)), (1, Fr(1, 1 << 20)), (1, Fr(-3))])
+        return {"fam": "poly", "rr": [[_s(_dy(d, -4, 4, d.choice([0, 1, 2, 4, 6]))), 1]], "qq": [], "scale": _s(sc),
+                "form": d.choice(["fact", "horner"])}
     if fam == "poly":
         rr = []
         for _ in range(d.weighted([(2, 0), (4, 1), (3, 2), (2, 3), (1, 4)])):
@@ -473,7 +486,7 @@ def _gen_mult(d, tier):
         orders = [k for k in range(1, m + 1) if d.bool()]
     return {"sub": "mult", "p": p, "m": m, "r": [_s(r), _s(ri)], "gr": gr, "gq": gq,
             "form": d.choice(["fact", "fact", "horner"]) if p >= 80 else "fact",
-            "orders": orders, "rtype": d.weighted([(3, "mp"), (1, "py")]),
+            "orders": orders, "rtype": d.weighted([(3, "mp"), (1, "py")]), "sk": d.weighted([(3, 0), (2, d.int(1, (3 * p) // 5))]),
             "maxsteps": d.weighted([(6, None), (1, 8), (1, 20)])}
 
 
@@ -928,6 +941,11 @@ def _check_scalar(c, res):
         if outcome is not None:
             res.nontrivial = True            # a start that does not converge
             res.cls += ":raised"
+            if (solver in ("illinois", "pegasus", "anderson", "ridder") and strict and deg == 1 and tolk is None
+                    and (c["maxsteps"] is None or c["maxsteps"] >= 30) and outcome in ("ValueError", "ZeroDivisionError")):
+                # regula falsi with any of the three scalings hits the zero of a linear function in its first step and
+                # Ridder's method converges superlinearly on it: 30 steps are ample at every precision up to 300 bits
+                res.bad("findroot:bracket:linear_noconv", "%s raised %s on a linear function with a sign-changing bracket" % (what, outcome))
             if solver == "bisect" and strict:
                 # bisection halves a sign-changing bracket: after N steps |x - root| <= w/2^(N+1); it may only fail
                 # the verification when that is not enough for |f(x)|^2 <= tol
@@ -1266,8 +1284,8 @@ def _check_mult(c, res):
             b = _cmul((r, ri), fco[k - 1]) if k >= 1 else (Fr(0), Fr(0))
             new.append((a[0] - b[0], a[1] - b[1]))
         fco = new
-    what = "multiplicity((x-(%s+%sj))^%d*g(x), root) with g roots %s, quadratic factors %s, %s form, supplied derivatives %s, prec %d" % (
-        c["r"][0], c["r"][1], m, c["gr"], c["gq"], form, c["orders"], p)
+    what = "multiplicity((x-(%s+%sj))^%d*g(x), root) with g roots %s, quadratic factors %s, %s form, supplied derivatives %s, scaled by 2^-%d, prec %d" % (
+        c["r"][0], c["r"][1], m, c["gr"], c["gq"], form, c["orders"], c.get("sk", 0), p)
     mp.prec = p
     try:
         def cn(z):
@@ -1283,11 +1301,16 @@ def _check_mult(c, res):
                 return v
             return h
         root = cn((r, ri))
+        sk = c.get("sk", 0)
+        scm = mp.ldexp(mp.one, -sk)          # exact power of two: the whole polynomial is scaled by 2^-sk
+
+        def scaled(fn):
+            return (lambda x: scm * fn(x)) if sk else fn
         if form == "fact":
             G = horner([(q, Fr(0)) for q in g])
-            f = lambda x: (x - root) ** m * G(x)
+            f = scaled(lambda x: (x - root) ** m * G(x))
         else:
-            f = horner(fco)
+            f = scaled(horner(fco))
         kw = {}
         dco = fco
         rho = _abs_fr(r, ri)
@@ -1301,7 +1324,7 @@ def _check_mult(c, res):
             if k not in c["orders"]:
                 continue
             if form == "horner":
-                kw["d%df" % k] = horner(dco)
+                kw["d%df" % k] = scaled(horner(dco))
                 if k < m:
                     noisy = max(noisy, _IntPoly(dco).S(rho))
             else:
@@ -1315,10 +1338,18 @@ def _check_mult(c, res):
                     for cf, e, G in terms:
                         v = v + cf * (x - root) ** e * G(x)
                     return v
-                kw["d%df" % k] = dk
+                kw["d%df" % k] = scaled(dk)
         # a Horner evaluation at p bits of a derivative that vanishes at the root returns rounding noise of size
         # 2^-p sum|c_k||r|^k; multiplicity compares it with eps^0.8, so the noise has to stay below that
-        if noisy * (len(fco) + 2) * 2.0 ** (3 - p) >= 2.0 ** (-0.8 * (p - 1)):
+        if noisy * 2.0 ** -sk * (len(fco) + 2) * 2.0 ** (3 - p) >= 2.0 ** (-0.8 * (p - 1)):
+            res.rejected = True
+            return res
+        # the m-th derivative at the root, m! g(r) 2^-sk, must stand clear of multiplicity's threshold eps^0.8
+        gv = (Fr(0), Fr(0))
+        for q in g:
+            gv = _cmul(gv, (r, ri))
+            gv = (gv[0] + q, gv[1])
+        if math.factorial(m) * _abs_fr(gv[0], gv[1]) * 2.0 ** -sk < 8 * 2.0 ** (-0.8 * (p - 1)):
             res.rejected = True
             return res
         if c["maxsteps"] is not None:
